@@ -14,7 +14,6 @@ import (
 	stakingkeeper "github.com/cosmos/cosmos-sdk/x/staking/keeper"
 	stakingtypes "github.com/cosmos/cosmos-sdk/x/staking/types"
 	evmtypes "github.com/palomachain/paloma/v2/x/evm/types"
-	schedulertypes "github.com/palomachain/paloma/v2/x/scheduler/types"
 	treasurytypes "github.com/palomachain/paloma/v2/x/treasury/types"
 	valsettypes "github.com/palomachain/paloma/v2/x/valset/types"
 )
@@ -33,6 +32,9 @@ import (
 //     support / activation / removal, TriggerSnapshotBuild, SetSnapshotOnChain,
 //     just-in-time valset updates and 31-day time jumps; after EVERY op every snapshot id is
 //     read back with FindSnapshotByID, the current snapshot and all consensus queues.
+//     c10_jit_test.go: the just-in-time update through its three entry points (scheduler, skyway
+//     event, end blocker), directed and macro histories in which the current snapshot is only partly
+//     on an active chain, and the monitor on every message an update adds to a queue.
 
 var (
 	c10Two32     = new(big.Int).Lsh(big.NewInt(1), 32)
@@ -641,6 +643,8 @@ type c10Keeper struct {
 	// a panic the case ends (model and implementation have diverged for good)
 	panicLine string
 	dead      bool
+	// otherTypes/20 more of the registered accounts carry a non-EVM chain type (0 in most cases)
+	otherTypes int
 }
 
 func (k *c10Keeper) replay() interface{} {
@@ -993,18 +997,7 @@ func (k *c10Keeper) opOnChain(ctx sdk.Context, id uint64, ch int) {
 	})
 }
 
-func (k *c10Keeper) opJit(ctx sdk.Context, ch int) {
-	k.inOp(ctx, "jit", func(c sdk.Context) (string, string) {
-		pick := 0
-		if _, _, err := k.fa.App().EvmKeeper.PickValidatorForMessage(c, c10Ref(ch), nil); err == nil {
-			pick = 1
-		}
-		line := fmt.Sprintf("jit %d %d", ch, pick)
-		k.panicLine = line
-		err := k.fa.App().EvmKeeper.PreJobExecution(c, &schedulertypes.Job{Routing: schedulertypes.Routing{ChainType: "evm", ChainReferenceID: c10Ref(ch)}})
-		return line, c10ErrRes(err)
-	})
-}
+func (k *c10Keeper) opJit(ctx sdk.Context, ch int) { k.opJitVia(ctx, ch, c10JitJob) }
 
 // opValset queries the valset of a stored snapshot for a chain (sent or not) and checks it.
 func (k *c10Keeper) opValset(ctx sdk.Context, id uint64, ch int) {
@@ -1261,7 +1254,7 @@ func (k *c10Keeper) randomAccts(vi int) []c10Acct {
 		switch y := r.Rng.Intn(20); {
 		case y == 0:
 			a.ctype = 1
-		case y == 1:
+		case y == 1 || y < 1+k.otherTypes:
 			a.ctype = 2
 		}
 		for tr := 1; tr <= 2; tr++ {
@@ -1305,11 +1298,19 @@ func runC10KeeperCase(t *testing.T, r *Rec, cs int) {
 	}
 	k := newC10Keeper(t, r, int64(1+cs%5), stakes)
 	r.Stat(fmt.Sprintf("keeper.profile.%d", profile))
+	if r.Rng.Intn(5) == 0 { // many accounts of a non-EVM chain type: in the snapshot, not in the valset
+		k.otherTypes = 6
+		r.Stat("keeper.other-types")
+	}
 	randChain := func() int { return c10AllChains[r.Rng.Intn(len(c10AllChains))] }
 	for k.fa.Height() < 46 && !k.dead {
 		if r.Rng.Intn(12) == 0 {
 			vi := r.Rng.Intn(nv)
 			k.regTx(vi, k.randomAccts(vi))
+			continue
+		}
+		if r.Rng.Intn(9) == 0 { // steer into "current snapshot only partly on an active chain" (c10_jit_test.go)
+			k.block(k.jitMacro(nv)...)
 			continue
 		}
 		var steps []c10Step
@@ -1343,7 +1344,8 @@ func runC10KeeperCase(t *testing.T, r *Rec, cs int) {
 				})
 			case x < 80:
 				ch := randChain()
-				steps = append(steps, func(c sdk.Context) { k.opJit(c, ch) })
+				via := r.Rng.Intn(c10JitPaths)
+				steps = append(steps, func(c sdk.Context) { k.opJitVia(c, ch, via) })
 			case x < 86:
 				ch := randChain()
 				off := r.Rng.Intn(4)
@@ -1385,6 +1387,7 @@ func TestC10(t *testing.T) {
 		t.Fatalf("thresholdForConsensus is %d, the harness assumes %d", c10DirectThreshold, c10Threshold)
 	}
 	runC10Directed(t, r)
+	runC10JitDirected(t, r)
 	runC10Pure(t, r)
 	nk := r.N / 6 // a keeper case builds a fresh app and runs ~45 blocks (≈0.15 s)
 	if nk < 8 {
